@@ -4,7 +4,8 @@
 // coq/Delta.v is the model that must print the same lines.
 //
 // Case lines:
-//   1 mode start end [rs re]     mode 0: capture/apply probe; mode 1: record run [start,end) then replay run [rs,re)
+//   1 mode start end [rs re]     mode 0: capture/apply probe; mode 1: dense record run [start,end) then replay run [rs,re)
+//                                mode 2: the same through the sparse absolute-time :memory: recording (explicit recordable_id)
 //   2 <schema tokens>            1=TS<int> 2=SIGNAL 3=TSS<int> 4 <e>=TSD<int,e> 5 n <e>=TSL<e,n>
 //                                6 k <f1..fk>=TSB 7 period min=TSW<int,period,min>
 //   3 t np p1..pn op arg         one mutation at time t through the path (TSD: key, TSL/TSB: index)
@@ -480,6 +481,19 @@ namespace
         }
     }
 
+    // the absolute-time recording: a list of (evaluation time, delta)
+    void print_sparse(hgv::Out &out, std::int64_t code, const ValueView &buf, const Shape &shape)
+    {
+        const auto list = buf.as_list();
+        for (std::size_t i = 0; i < list.size(); ++i)
+        {
+            const auto entry = list.at(i).as_indexed_view();
+            Line       l{code, (std::int64_t)i, us(entry.at(0).template checked_as<DateTime>())};
+            enc_delta(l, entry.at(1), shape);
+            out.line(l);
+        }
+    }
+
     void run_case(const hgv::Case &c, hgv::Out &out)
     {
         Ctx ctx;
@@ -517,7 +531,7 @@ namespace
                 else { throw BadCase("line"); }
             }
             if (!have_shape || start < 1 || end <= start || end > start + 1000) { throw BadCase("header"); }
-            if (mode != 0 && !(mode == 1 && rstart >= 1 && rend > rstart && rend <= rstart + 1000)) { throw BadCase("mode"); }
+            if (mode != 0 && !((mode == 1 || mode == 2) && rstart >= 1 && rend > rstart && rend <= rstart + 1000)) { throw BadCase("mode"); }
             {
                 std::vector<std::pair<std::int64_t, std::vector<std::int64_t>>> pushes;
                 for (const auto &op : ctx.ops)
@@ -551,6 +565,9 @@ namespace
                 stdlib::register_standard_operators();
                 struct SrcTag {};
                 struct ProbeTag {};
+                const bool        sparse   = mode == 2;
+                const std::string rec_key  = sparse ? ":memory:hgv.rec" : "rec";
+                const std::string rec2_key = sparse ? ":memory:hgv.rec2" : "rec2";
                 Value recorded;
                 {
                     Wiring        w{WiringKind::TopLevel, WiringOptions{}};
@@ -560,18 +577,19 @@ namespace
                     static_cast<void>(w.add_unique_node(std::type_index(typeid(ProbeTag)), make_probe(&ctx, false),
                                                         std::span<const WiringPortRef>{ins.data(), ins.size()}, Value{}));
                     Port<void> sp{w, src};
-                    wire<stdlib::dense_record_impl>(w, sp, Str{"rec"});
+                    if (sparse) { wire<stdlib::sparse_record_impl>(w, sp, Str{"rec"}, arg<"recordable_id">(Str{"hgv"})); }
+                    else { wire<stdlib::dense_record_impl>(w, sp, Str{"rec"}); }
                     GraphBuilder         gb = std::move(w).finish();
                     GraphExecutorBuilder eb;
                     eb.graph_builder(std::move(gb)).start_time(dt(start)).end_time(dt(end));
                     GraphExecutorValue executor = eb.make_executor();
                     auto               ev       = executor.view();
                     ev.run();
-                    const ValueView buf = ev.graph().global_state().get("rec");
+                    const ValueView buf = ev.graph().global_state().get(rec_key);
                     if (buf.valid())
                     {
                         recorded = Value{buf};
-                        print_buffer(out, 30, buf, ctx.shape);
+                        if (sparse) { print_sparse(out, 31, buf, ctx.shape); } else { print_buffer(out, 30, buf, ctx.shape); }
                     }
                 }
                 {
@@ -581,23 +599,38 @@ namespace
                     key.kind         = WiringArg::Kind::Scalar;
                     key.scalar_value = Value{Str{"rec"}};
                     key.scalar_meta  = key.scalar_value.schema();
-                    std::array<WiringArg, 1> args{std::move(key)};
-                    auto                     res = wire_operator(w, "replay", std::span<const WiringArg>{args}, true, ctx.shape.meta);
+                    std::vector<WiringArg> args;
+                    args.push_back(std::move(key));
+                    if (sparse)
+                    {
+                        // an explicit recordable_id selects the absolute-time :memory: recording
+                        WiringArg rid;
+                        rid.kind         = WiringArg::Kind::Scalar;
+                        rid.scalar_value = Value{Str{"hgv"}};
+                        rid.scalar_meta  = rid.scalar_value.schema();
+                        rid.name         = "recordable_id";
+                        args.push_back(std::move(rid));
+                    }
+                    auto res = wire_operator(w, "replay", std::span<const WiringArg>{args.data(), args.size()}, true, ctx.shape.meta);
                     if (!res.has_output) { throw std::logic_error("replay has no output"); }
                     WiringPortRef                rp = res.output.erased();
                     std::array<WiringPortRef, 1> ins{rp};
                     static_cast<void>(w.add_unique_node(std::type_index(typeid(ProbeTag)), make_probe(&ctx, false),
                                                         std::span<const WiringPortRef>{ins.data(), ins.size()}, Value{}));
-                    wire<stdlib::dense_record_impl>(w, res.output, Str{"rec2"});
+                    if (sparse) { wire<stdlib::sparse_record_impl>(w, res.output, Str{"rec2"}, arg<"recordable_id">(Str{"hgv"})); }
+                    else { wire<stdlib::dense_record_impl>(w, res.output, Str{"rec2"}); }
                     GraphBuilder gb = std::move(w).finish();
-                    if (recorded.has_value()) { gb.global_state().set("rec", recorded); }
+                    if (recorded.has_value()) { gb.global_state().set(rec_key, recorded); }
                     GraphExecutorBuilder eb;
                     eb.graph_builder(std::move(gb)).start_time(dt(rstart)).end_time(dt(rend));
                     GraphExecutorValue executor = eb.make_executor();
                     auto               ev       = executor.view();
                     ev.run();
-                    const ValueView buf = ev.graph().global_state().get("rec2");
-                    if (buf.valid()) { print_buffer(out, 130, buf, ctx.shape); }
+                    const ValueView buf = ev.graph().global_state().get(rec2_key);
+                    if (buf.valid())
+                    {
+                        if (sparse) { print_sparse(out, 131, buf, ctx.shape); } else { print_buffer(out, 130, buf, ctx.shape); }
+                    }
                 }
                 out.line({28, 0});
             }
